@@ -4,6 +4,7 @@ import SplinkVerif.Drv.Blocking
 import SplinkVerif.Drv.Score
 import SplinkVerif.Drv.Arith
 import SplinkVerif.Drv.BlockingAnalysis
+import SplinkVerif.Drv.EM
 /-! Line-protocol driver: one JSON object per input line, one JSON object per output line. -/
 open Lean SplinkVerif.Drv
 
@@ -16,6 +17,9 @@ def dispatch (j : Json) : Except String Json := do
   | "score" => handleScore j
   | "arith" => handleArith j
   | "blockanalysis" => handleBlockAnalysis j
+  | "em_step" => handleEMStep j
+  | "em_run" => handleEMRun j
+  | "em_misc" => handleEMMisc j
   | "ping" => pure (Json.mkObj [("pong", Json.bool true)])
   | _ => throw s!"unknown op {op}"
 
